@@ -36,7 +36,7 @@ const HTTP_TYPES: &[&str] = &["basichttp", "http://www.w3.org/TR/scxml/#BasicHTT
 /// decorations appended to the unique event name e<n>
 const NAME_DECOR: &[&str] = &["", ".sub", " sp ace", "&a=b", "%25+x", "/\u{fc}\u{df}", "?q#f", ";,:", "=", "+", ".pad "];
 /// (key, is structured for rocket's form-key grammar)
-const PARAM_KEYS: &[&str] = &["a", "b", "k1", "k \u{e4}", "a&b", "p=q", "per%cent", "plus+", "sl/ash"];
+const PARAM_KEYS: &[&str] = &["a", "b", "k1", "k \u{e4}", "a&b", "p=q", "per%cent", "plus+", "sl/ash", "A", "userId", "K1"];
 const PARAM_VALUES: &[&str] = &["5", "str", "", "a b&c=d", "100%", "\u{fc}/?#+", "x=y", "1+1", " lead", "trail ", "  two words  ", " "];
 
 fn xml_attr(s: &str) -> String {
